@@ -591,6 +591,7 @@ static int run_jet(const struct eventloop *loop, const struct cmdline_config *co
 
 	int ret = loop->run(loop->this_ptr, &go_ahead);
 	destroy_all_peers();
+	destroy_all_http_connections();
 	return ret;
 }
 
